@@ -151,9 +151,34 @@ static XRes c03Once(const LPModel& Min, const ParamSet& cfg, int syncMode, int l
    LPModel M = syncMode == 0 ? doubleImage(Min) : Min;
    SoPlex sp;
    setupExact(sp, cfg, syncMode);
-   bool mustDecide = boolOf(cfg, SoPlex::RATREC) || boolOf(cfg, SoPlex::RATFAC);
+   // "always decides" is claimed for: the default options, the two shipped exact settings (exact.set = defaults;
+   // exact-pure-boosting.set = no iterative refinement + precision boosting with adapted tolerances and ratfac_minstalls 0)
+   // and option vectors that run iterative refinement with rational reconstruction or rational factorization enabled.
+   bool ir = boolOf(cfg, SoPlex::ITERATIVE_REFINEMENT);
+   bool pureBoosting = !ir && boolOf(cfg, SoPlex::PRECISION_BOOSTING) && boolOf(cfg, SoPlex::ADAPT_TOLS_TO_MULTIPRECISION)
+                       && cfg.i.count(SoPlex::RATFAC_MINSTALLS) && cfg.i.at(SoPlex::RATFAC_MINSTALLS) == 0 && cfg.b.size() == 2;
+   bool mustDecide = (ir && (boolOf(cfg, SoPlex::RATREC) || boolOf(cfg, SoPlex::RATFAC))) || pureBoosting;
    sp.setIntParam(SoPlex::ITERLIMIT, 200000, true);
-   if(!mustDecide)
+   // wall-clock budget per solve; hitting it is counted as inconclusive, never as a verdict
+   sp.setRealParam(SoPlex::TIMELIMIT, cli.thorough() ? 60.0 : 15.0, true);
+   // "always decides" is judged on instances whose coefficient ratio is at most 1e12 (more extreme instances are solved and
+   // all their verdicts/vectors are checked, but an undecided outcome is only counted)
+   {
+      Q mn = 0, mx = 0;
+      for(int i = 0; i < M.m; i++) for(int j = 0; j < M.n; j++) if(M.A[i][j] != 0)
+            {
+               Q a = qabs(M.A[i][j]);
+               if(mn == 0 || a < mn) mn = a;
+               if(a > mx) mx = a;
+            }
+      if(mn != 0 && mx / mn > Q("1000000000000"))
+      {
+         if(count && mustDecide) S.count("c03.extreme_ratio_instances");
+         mustDecide = false;
+      }
+   }
+   bool limited = !mustDecide;
+   if(limited)
    {
       sp.setIntParam(SoPlex::REFLIMIT, 40, true);
       sp.setIntParam(SoPlex::STALLREFLIMIT, 20, true);
@@ -192,6 +217,11 @@ static XRes c03Once(const LPModel& Min, const ParamSet& cfg, int syncMode, int l
    if(st == SPX::INForUNBD && T.certified && T.status == REF_OPTIMAL)
    {
       R.set("verdict.INForUNBD-on-OPTIMAL", "exact solve returns INForUNBD but the rational LP has a finite optimum");
+      return R;
+   }
+   if(st == SPX::ABORT_TIME)
+   {
+      if(count) S.count("c03.inconclusive_time_budget");
       return R;
    }
    if(mustDecide && !definite && T.certified)
@@ -422,7 +452,14 @@ static void caseC03(long long k, Rng& g)
    LPModel M = genRationalInstance(g, fam);
    bool pw = (k % 3) != 2;
    ParamSet cfg = exactVector(g, k / 3, pw);
-   if(k % 11 == 0) cfg = ParamSet();     // default options
+   if(k % 11 == 0) cfg = ParamSet();     // default options (= settings/exact.set)
+   if(k % 13 == 0)                       // settings/exact-pure-boosting.set
+   {
+      cfg = ParamSet();
+      cfg.b[SoPlex::ITERATIVE_REFINEMENT] = false;
+      cfg.b[SoPlex::ADAPT_TOLS_TO_MULTIPRECISION] = true;
+      cfg.i[SoPlex::RATFAC_MINSTALLS] = 0;
+   }
    int syncMode = (int)((k / 2) % 3);
    int loadMode = g.range(0, 1);
    S.begin(k, fam + " " + std::to_string(M.m) + "x" + std::to_string(M.n) + " sync" + std::to_string(syncMode) + " " + cfg.key());
